@@ -92,11 +92,12 @@ def absence : Nat := 22        -- base.py:485, 560
 def depsAbsence : Nat := 23    -- base.py:501, 600
 def paramsExceed : Nat := 24   -- base.py:363
 def paramsLack : Nat := 25     -- base.py:370
-def initDataclass : Nat := 26  -- cls.py:582-583
+def initDataclass : Nat := 26  -- cls.py:608-609
 def posType : Nat := 27        -- func.py:587-597
 def result : Nat := 28         -- func.py:707-711
 def posAbsence : Nat := 29     -- func.py:651
 def depth : Nat := 30          -- options.py:372-375
+def initPositional : Nat := 31 -- cls.py:523-526 (`Cls(<dict>)`, fixes/C04-nonstring-keys)
 end Site
 
 def Exc.isPerr : Exc → Bool
@@ -209,6 +210,8 @@ structure Legacy where
   allOfRaw : Bool := false        -- `&` hands the raw exception to handle_error (rule.py:372)
   aliasCompare : Bool := false    -- `!=` on user values unprotected (base.py:457, 553)
   discLookup : Bool := false      -- `discriminator in map` unprotected (field.py:1043)
+  mapKeyStr : Bool := false       -- `f"{_key}<key>"` rendered outside any try (rule.py:2014)
+  nonStrKeys : Bool := false      -- init_dataclass hands a mapping with non-str keys to `cls.__init__(inst, **data)` (cls.py:606)
   deriving Repr
 
 def Legacy.none : Legacy := {}
@@ -266,6 +269,8 @@ structure World (V : Type) where
   construct : Ty → V → M V
   /-- `result[key] = val`: hashing the converted key -/
   insertKey : V → M Unit
+  /-- `f"{_key}<key>"`: `str()` of a raw mapping key (route and error item), rule.py:2014-2018 -/
+  keyStr : V → M Unit
   /-- validator number k of `__validators__` -/
   validate : Nat → V → M V
   /-- `pre_validate` / `post_validate` (developer hooks, identity by default) -/
@@ -354,12 +359,18 @@ def tupleArgs (W : World V) (L : Legacy) (o : Opts) (ts : List Ty) (v : V) : M V
     | _ => pure r
   pure (W.ofTuple r)
 
-/-! ### Rule._parse_map_args — rule.py:1976-2034 -/
+/-! ### Rule._parse_map_args — rule.py:1996-2066 -/
+
+/-- the route / error item of a raw key is rendered first (`f"{_key}<key>"`); a key that cannot be rendered gets a
+placeholder (fixes/C04-unrenderable-values); legacy: the f-string sits outside any `try` -/
+def renderKey (W : World V) (L : Legacy) (k : V) : M Unit :=
+  if L.mapKeyStr then W.keyStr k else tryExcept (W.keyStr k) (fun _ => pure ())
 
 def mapLoop (W : World V) (L : Legacy) (o : Opts) (kt : Ty) (vt : Option Ty) :
     List (V × V) → Nat → List (V × V) → M (List (V × V))
   | [], _, acc => pure acc
   | (k, x) :: rest, i, acc => do
+    renderKey W L k
     enterCheck W i
     -- key: `some key` to go on, `none` = `continue`
     let key ← tryExcept (do let y ← isolated (W.conv kt k); pure (some y)) (fun e => do
